@@ -178,11 +178,17 @@ class Interp:
                     raise Uninterpretable(f"missing argument {p} for {func.qual}")
                 env[p] = self.eval(d, {}, func, depth)
         self.trace_calls.append(func.qual)
+        is_gen = getattr(func, "_is_gen", None)
+        if is_gen is None:
+            is_gen = func._is_gen = any(isinstance(x, (ast.Yield, ast.YieldFrom)) for st in func.node.body
+                                        for x in walk_shallow(st))
+        if is_gen:
+            env["__yields__"] = []
         try:
             self.exec_block(func.body_without_docstring(), env, func, depth)
         except _Return as r:
-            return r.value
-        return None
+            return _Gen(env["__yields__"]) if is_gen else r.value
+        return _Gen(env["__yields__"]) if is_gen else None
 
     def method(self, obj, name, depth=0):
         cls_name = obj.cls_name if isinstance(obj, Obj) else obj.cls if isinstance(obj, EnumVal) else None
@@ -277,28 +283,31 @@ class Interp:
             raise Uninterpretable(f"assignment target {type(target).__name__}")
 
     def exec_stmt(self, st, env, func, depth):
-        self.tick()
-        if isinstance(st, ast.Expr):
+        self.steps += 1
+        if self.steps > self.max_steps:
+            raise Uninterpretable("step budget exceeded")
+        t = type(st)
+        if t is ast.Expr:
             self.eval(st.value, env, func, depth)
-        elif isinstance(st, ast.Assign):
+        elif t is ast.Assign:
             v = self.eval(st.value, env, func, depth)
             for t in st.targets:
                 self.assign(t, v, env, func, depth)
-        elif isinstance(st, ast.AnnAssign):
+        elif t is ast.AnnAssign:
             if st.value is not None:
                 self.assign(st.target, self.eval(st.value, env, func, depth), env, func, depth)
-        elif isinstance(st, ast.AugAssign):
+        elif t is ast.AugAssign:
             cur = self.eval(st.target, env, func, depth)
             v = self.eval(st.value, env, func, depth)
             self.assign(st.target, self.binop(st.op, cur, v), env, func, depth)
-        elif isinstance(st, ast.If):
+        elif t is ast.If:
             if self.truth(self.eval(st.test, env, func, depth)):
                 self.exec_block(st.body, env, func, depth)
             else:
                 self.exec_block(st.orelse, env, func, depth)
-        elif isinstance(st, ast.Return):
+        elif t is ast.Return:
             raise _Return(self.eval(st.value, env, func, depth) if st.value is not None else None)
-        elif isinstance(st, ast.Raise):
+        elif t is ast.Raise:
             if st.exc is None:
                 raise Raised(env.get("__current_exc__", "Exception"))
             e = st.exc
@@ -307,12 +316,12 @@ class Interp:
             else:
                 nm = dotted(e)
             raise Raised((nm or "Exception").split(".")[-1])
-        elif isinstance(st, ast.Pass):
+        elif t is ast.Pass:
             return
-        elif isinstance(st, ast.Assert):
+        elif t is ast.Assert:
             if not self.truth(self.eval(st.test, env, func, depth)):
                 raise Raised("AssertionError")
-        elif isinstance(st, ast.For):
+        elif t is ast.For:
             it = self.eval(st.iter, env, func, depth)
             broke = False
             for v in self.iterate(it):
@@ -326,7 +335,7 @@ class Interp:
                     continue
             if not broke:
                 self.exec_block(st.orelse, env, func, depth)
-        elif isinstance(st, ast.While):
+        elif t is ast.While:
             n = 0
             while self.truth(self.eval(st.test, env, func, depth)):
                 n += 1
@@ -338,11 +347,11 @@ class Interp:
                     break
                 except _Continue:
                     continue
-        elif isinstance(st, ast.Break):
+        elif t is ast.Break:
             raise _Break()
-        elif isinstance(st, ast.Continue):
+        elif t is ast.Continue:
             raise _Continue()
-        elif isinstance(st, ast.Try):
+        elif t is ast.Try:
             try:
                 self.exec_block(st.body, env, func, depth)
             except Raised as r:
@@ -366,7 +375,7 @@ class Interp:
             else:
                 self.exec_block(st.orelse, env, func, depth)
             self.exec_block(st.finalbody, env, func, depth)
-        elif isinstance(st, (ast.FunctionDef,)):
+        elif t is ast.FunctionDef:
             env[st.name] = ("closure", func.nested.get(st.name) or Func(st.name, st, func.module, func.cls, func), env)
         elif isinstance(st, (ast.Import, ast.ImportFrom, ast.Global, ast.Nonlocal)):
             return
@@ -461,6 +470,19 @@ class Interp:
             return res if isinstance(op, ast.In) else not res
         if isinstance(a, Opaque) or isinstance(b, Opaque):
             raise Uninterpretable("ordering of opaque values")
+        if isinstance(a, Obj) or isinstance(b, Obj):
+            m = self.method(a if isinstance(a, Obj) else b, "__lt__")
+            if m is None or not (isinstance(a, Obj) and isinstance(b, Obj)):
+                raise Raised("TypeError", "unordered objects")
+            lt = lambda x, y: self.truth(self.call_func(m, [y], {}, x, depth + 1))  # noqa: E731
+            if isinstance(op, ast.Lt):
+                return lt(a, b)
+            if isinstance(op, ast.Gt):
+                return lt(b, a)
+            if isinstance(op, ast.LtE):
+                return lt(a, b) or self.equals(a, b, depth)
+            if isinstance(op, ast.GtE):
+                return lt(b, a) or self.equals(a, b, depth)
         if isinstance(a, EnumVal) and not self._is_intenum(a):
             m = self.method(a, "__lt__")
             if m is None:
@@ -508,10 +530,11 @@ class Interp:
         return a == b
 
     def eval(self, n, env, func, depth=0):
-        self.tick()
-        if isinstance(n, ast.Constant):
+        self.steps += 1
+        t = type(n)
+        if t is ast.Constant:
             return n.value
-        if isinstance(n, ast.Name):
+        if t is ast.Name:
             if n.id in env:
                 return env[n.id]
             if n.id in ("True", "False", "None"):
@@ -523,6 +546,9 @@ class Interp:
                 return ("bound", mod.funcs[n.id], None)
             if mod is not None and n.id in mod.assigns:
                 return self.eval(mod.assigns[n.id], {}, func, depth)
+            if mod is not None and n.id in mod.imports and mod.imports[n.id][0] in ("itertools", "functools") \
+                    and mod.imports[n.id][1] in ("islice", "chain", "reduce", "count", "zip_longest"):
+                return ("builtin", mod.imports[n.id][1])
             if mod is not None and n.id in mod.imports:
                 imod, iname = mod.imports[n.id]
                 short = imod[len("inscripta.biocantor."):] if imod.startswith("inscripta.biocantor.") else None
@@ -543,10 +569,10 @@ class Interp:
                                                "enumerate", "set", "bool", "iter", "next", "repr", "dict", "frozenset"):
                 return ("builtin", n.id)
             raise Uninterpretable(f"name {n.id} in {func.qual if func else '?'}")
-        if isinstance(n, ast.Attribute):
+        if t is ast.Attribute:
             o = self.eval(n.value, env, func, depth)
             return self.getattr(o, n.attr, func, depth)
-        if isinstance(n, ast.Compare):
+        if t is ast.Compare:
             left = self.eval(n.left, env, func, depth)
             for op, c in zip(n.ops, n.comparators):
                 right = self.eval(c, env, func, depth)
@@ -554,7 +580,7 @@ class Interp:
                     return False
                 left = right
             return True
-        if isinstance(n, ast.BoolOp):
+        if t is ast.BoolOp:
             if isinstance(n.op, ast.And):
                 v = True
                 for x in n.values:
@@ -568,7 +594,7 @@ class Interp:
                 if self.truth(v):
                     return v
             return v
-        if isinstance(n, ast.UnaryOp):
+        if t is ast.UnaryOp:
             v = self.eval(n.operand, env, func, depth)
             if isinstance(n.op, ast.Not):
                 return not self.truth(v)
@@ -579,25 +605,25 @@ class Interp:
             if isinstance(n.op, ast.UAdd):
                 return v
             raise Uninterpretable("unary op")
-        if isinstance(n, ast.BinOp):
+        if t is ast.BinOp:
             return self.binop(n.op, self.eval(n.left, env, func, depth), self.eval(n.right, env, func, depth))
-        if isinstance(n, ast.IfExp):
+        if t is ast.IfExp:
             if self.truth(self.eval(n.test, env, func, depth)):
                 return self.eval(n.body, env, func, depth)
             return self.eval(n.orelse, env, func, depth)
         if isinstance(n, (ast.Tuple, ast.List)):
             vals = [self.eval(x, env, func, depth) for x in n.elts]
-            return tuple(vals) if isinstance(n, ast.Tuple) else vals
-        if isinstance(n, ast.Set):
-            return [self.eval(x, env, func, depth) for x in n.elts]
-        if isinstance(n, ast.Dict):
+            return tuple(vals) if t is ast.Tuple else vals
+        if t is ast.Set:
+            return self._dedupe([self.eval(x, env, func, depth) for x in n.elts], depth)
+        if t is ast.Dict:
             d = {}
             for k, v in zip(n.keys, n.values):
                 d[self.eval(k, env, func, depth)] = self.eval(v, env, func, depth)
             return d
-        if isinstance(n, ast.JoinedStr):
+        if t is ast.JoinedStr:
             return Opaque("fstring")
-        if isinstance(n, ast.Subscript):
+        if t is ast.Subscript:
             o = self.eval(n.value, env, func, depth)
             if isinstance(n.slice, ast.Slice):
                 lo = self.eval(n.slice.lower, env, func, depth) if n.slice.lower else None
@@ -628,8 +654,10 @@ class Interp:
         if isinstance(n, (ast.ListComp, ast.GeneratorExp, ast.SetComp)):
             out = []
             self._comp(n.generators, 0, env, func, depth, lambda e: out.append(self.eval(n.elt, e, func, depth)))
-            return out if not isinstance(n, ast.GeneratorExp) else _Gen(out)
-        if isinstance(n, ast.DictComp):
+            if t is ast.SetComp:
+                return self._dedupe(out, depth)
+            return out if not t is ast.GeneratorExp else _Gen(out)
+        if t is ast.DictComp:
             out = {}
 
             def put(e):
@@ -637,13 +665,26 @@ class Interp:
 
             self._comp(n.generators, 0, env, func, depth, put)
             return out
-        if isinstance(n, ast.Lambda):
+        if t is ast.Lambda:
             return ("lambda", n, dict(env))
-        if isinstance(n, ast.Call):
+        if t is ast.Call:
             return self.eval_call(n, env, func, depth)
-        if isinstance(n, ast.Starred):
+        if t is ast.Yield:
+            env["__yields__"].append(self.eval(n.value, env, func, depth) if n.value is not None else None)
+            return None
+        if t is ast.YieldFrom:
+            env["__yields__"].extend(self.iterate(self.eval(n.value, env, func, depth)))
+            return None
+        if t is ast.Starred:
             raise Uninterpretable("starred")
         raise Uninterpretable(f"expression {type(n).__name__}")
+
+    def _dedupe(self, items, depth):
+        out = []
+        for x in items:
+            if not any(self.equals(x, y, depth) for y in out):
+                out.append(x)
+        return out
 
     def _comp(self, gens, i, env, func, depth, emit):
         if i == len(gens):
@@ -782,13 +823,51 @@ class Interp:
             return all(self.truth(x) for x in self.iterate(args[0]))
         if name in ("list", "tuple", "set", "frozenset"):
             items = self.iterate(args[0]) if args else []
+            if name in ("set", "frozenset"):
+                return self._dedupe(items, depth)
             return tuple(items) if name == "tuple" else list(items)
         if name == "sorted":
+            import functools
             items = self.iterate(args[0])
             key = kwargs.get("key")
+            rev = bool(kwargs.get("reverse", False))
             if key is not None:
-                return sorted(items, key=lambda x: self.apply(key, [x], {}, func, depth))
-            return sorted(items)
+                items = [(self.apply(key, [x], {}, func, depth), x) for x in items]
+            else:
+                items = [(x, x) for x in items]
+
+            def cmp(p, q):
+                if self.compare(ast.Lt(), p[0], q[0], func, depth):
+                    return -1
+                if self.compare(ast.Lt(), q[0], p[0], func, depth):
+                    return 1
+                return 0
+
+            return [x for _, x in sorted(items, key=functools.cmp_to_key(cmp), reverse=rev)]
+        if name == "islice":
+            seq = self.iterate(args[0])
+            return _Gen(seq[slice(*args[1:])])
+        if name == "chain":
+            out = []
+            for a in args:
+                out.extend(self.iterate(a))
+            return _Gen(out)
+        if name == "reduce":
+            seq = self.iterate(args[1])
+            if len(args) > 2:
+                acc = args[2]
+            elif seq:
+                acc, seq = seq[0], seq[1:]
+            else:
+                raise Raised("TypeError", "reduce of empty sequence")
+            for x in seq:
+                acc = self.apply(args[0], [acc, x], {}, func, depth)
+            return acc
+        if name == "count":
+            return _Gen(range(args[0] if args else 0, (args[0] if args else 0) + 10000))
+        if name == "zip_longest":
+            import itertools as _it
+            return list(_it.zip_longest(*[self.iterate(a) for a in args]))
         if name == "reversed":
             return list(reversed(self.iterate(args[0])))
         if name == "zip":
